@@ -1,5 +1,6 @@
 from typing import Final
 
+from pyteal.errors import verifyFieldVersion
 from pyteal.types import TealType, require_type
 from pyteal.ir import Op
 from pyteal.ast.expr import Expr
@@ -292,6 +293,10 @@ class AssetParam:
             TealType.bytes,
             immediate_args=["AssetCreator"],
             args=[asset],
+            # the AssetCreator field was added to asset_params_get in program version 5
+            compile_check=lambda options: verifyFieldVersion(
+                "AssetCreator", 5, options.version
+            ),
         )
 
 
